@@ -201,7 +201,8 @@ struct runner
     }
   }
 
-  bool links_ok(T const &t)
+  template <class Tree>
+  bool links_ok(Tree const &t)
   {
     for (auto const &c : t.children())
     {
@@ -360,6 +361,12 @@ struct runner
         fail("map", "root " + std::to_string(i));
         return;
       }
+      // the result of map is inspected IN PLACE (a later move or copy would re-link its children)
+      if (!links_ok(mapped))
+      {
+        fail("map/parent-link", "a node of the result of tree::map does not point at the node that lists it; source=" + ser(model[i]));
+        return;
+      }
       shapes.insert(vf::hash_str(shape(model[i])));
       vf::count_max("max/tree/nodes", count_nodes(model[i]));
       vf::count_max("max/tree/depth", mdepth(model[i]));
@@ -417,7 +424,7 @@ struct runner
       std::size_t total = 0;
       for (auto const &m : model)
         total += count_nodes(m);
-      unsigned op = static_cast<unsigned>(g.below(27));
+      unsigned op = static_cast<unsigned>(g.below(28));
       if (total > 45 && op < 8)
         op = 8 + op % 5; // keep forests small: bias towards removing operations
       char const *inner = pa.empty() ? "root" : "inner";
@@ -750,6 +757,42 @@ struct runner
         opname = "compare-reshaped";
       }
       break;
+      case 27:
+      {
+        // a new root built by the (value, child list) constructor from copies of up to three existing nodes; it is
+        // checked where it was constructed and then replaces a root
+        T::child_list kids;
+        M mc{nextid++, {}};
+        unsigned const nk = static_cast<unsigned>(g.below(4));
+        std::string from;
+        for (unsigned k = 0; k < nk; ++k)
+        {
+          std::size_t rk;
+          Path pk;
+          pick(rk, pk);
+          kids.push_back(std::as_const(at(*real[rk], pk)));
+          mc.ch.push_back(at(model[rk], pk));
+          from += " " + pstr(rk, pk);
+        }
+        vf::extend_case(" child_list_ctor(v%d;%s)", mc.id, from.c_str());
+        int idv = mc.id;
+        auto nt = std::make_unique<T>(std::move(idv), std::move(kids));
+        if (ser(*nt) != ser(mc) || nt->parent().has_value() || !links_ok(*nt))
+        {
+          fail("child-list-ctor/result", "new tree " + ser(*nt) + " want " + ser(mc) + (links_ok(*nt) ? "" : " (a child does not point at the new node)"));
+          break;
+        }
+        {
+          int keep = mc.id;
+          relabel(mc, *nt);
+          (void)keep;
+        }
+        std::size_t const slot = g.below(R);
+        real[slot] = std::move(nt);
+        model[slot] = mc;
+        opname = nk == 0 ? "child-list-ctor-empty" : "child-list-ctor";
+      }
+      break;
       case 25:
       case 26:
       {
@@ -1069,7 +1112,7 @@ void body()
         "tree/op/move-ctor-to-root", "tree/op/move-ctor-to-child", "tree/op/pop_back-subtree", "tree/op/pop_front-subtree",
         "tree/op/pop_back-empty", "tree/op/erase", "tree/op/erase-range", "tree/op/erase-range-empty",
         "tree/op/release-subtree", "tree/op/release-and-reattach", "tree/op/clear", "tree/op/sort", "tree/op/sort-predicate",
-        "tree/op/value-set", "tree/op/self-copy-assign", "tree/op/self-swap", "tree/op/swap-root-root", "tree/op/swap-inner-inner", "tree/op/swap-root-inner",
+        "tree/op/value-set", "tree/op/child-list-ctor", "tree/op/self-copy-assign", "tree/op/self-swap", "tree/op/swap-root-root", "tree/op/swap-inner-inner", "tree/op/swap-root-inner",
         "tree/op/swap-inner-root", "tree/op/copy-assign-inner-related", "tree/op/copy-assign-inner-unrelated",
         "tree/op/copy-assign-root-unrelated", "tree/op/copy-assign-root-related", "tree/op/copy-assign-inner-unrelated-grows",
         "tree/op/move-assign-inner-inner", "tree/op/move-assign-root-inner", "tree/op/move-assign-inner-root",
